@@ -19,8 +19,8 @@ PROPS["C02"] = {
     "modules": ["Foundation.Proofs.C02"],
     "facts": True,
     "level_text": "Machine-checked refinement of the literal setNonce (incl. Go's sort.Search) to the full-history spec: for every TTL and every unbounded history a nonce is accepted iff it is 13-digit, never accepted before and not older than any accepted nonce by more than the TTL; corollaries at_most_once, too_old_rejected, exact window edge, bad_format_rejected, fresh_accepted, reject_keeps_state, sender independence (per-sender projection). Constants 50 s / 13 digits are re-extracted from the source each run. The model is tied to the code by exhaustive symbolic sequences on the exported setNonce and by end-to-end batch/task histories with replayed signed requests.",
-    "level_note": "Trusted: Lean kernel + 3 standard axioms; len(FormatUint n)=13 <-> 10^12<=n<10^13 (tested at the four boundaries, not proved); protobuf round-trip of proto.Nonce; one sender <-> one composite key; legacy single-integer nonce encoding excluded; the model is the hand transcription checked by the differential run.",
-    "trusted_base": ["core/nonce.go setNonce/checkNonce modelled by Nonce.setNonce/stepMulti", "decimal length 13 <-> [10^12,10^13) (boundary-tested)", "proto.Nonce marshal/unmarshal round-trip"],
+    "level_note": "Trusted: Lean kernel + 3 standard axioms; decimal length 13 <-> 10^12<=n<10^13 is proved (is13_iff_decimal_length, over Lean's Nat.toDigits 10; strconv.FormatUint is trusted to be the decimal representation); protobuf round-trip of proto.Nonce; one sender <-> one composite key; legacy single-integer nonce encoding excluded; the model is the hand transcription checked by the differential run.",
+    "trusted_base": ["core/nonce.go setNonce/checkNonce modelled by Nonce.setNonce/stepMulti", "strconv.FormatUint(n,10) is the decimal representation Nat.toDigits 10 n (length law proved: is13_iff_decimal_length)", "proto.Nonce marshal/unmarshal round-trip"],
     "hypotheses": ["stored windows were produced by setNonce from the empty window (legacy single-integer records excluded)"],
     "not_modelled": ["legacy nonce decoding branch of checkNonce", "NBTx/immediate route (nonce not checked there by design of the code; property quantifies over batches and task lists)"],
     "assumptions": ["Fabric delivers unique tx ids; ACL maps a key to one address"],
@@ -158,11 +158,11 @@ PROPS["C08"] = {
 }
 
 PROPS["C09"] = {
-    "modules": ["Foundation.Proofs.C09"],
+    "modules": ["Foundation.Proofs.C09", "Foundation.Proofs.C09Value"],
     "level_text": "Machine-checked on a two-ledger model with asset lists (repeated groups, both read semantics): begin is all-or-nothing (sequential debit = per-group totals; empty list, existing id, negative or any under-funded asset refuse everything); cancel only by the creator at/after the timeout, refunding every asset; the answered copy can be cancelled by nobody; wrong keys and completions of absent records are refused, a successful completion had the right key; release_once_partial: under the documented order (origin cancelled only for an id the robot has abandoned) at most one of refund/release happens. The unrestricted exactly-once statement is FALSE of the code: two proved counterexamples (creator cancels after the timeout and still completes in the destination; a group listed twice is credited once by the direct completion) are listed as known findings and detected on the implementation by the judge. Tied to the code by random and directed histories on two real chaincode instances with both peer clocks controlled.",
-    "level_note": "Trusted: Lean kernel + 3 axioms; sha3 preimage resistance; committed-read semantics of a real peer as implemented by the simulated peer; per-group value conservation over both channels is monitored by the judge on the implementation's dumps but proved only for the single swap (C08). Known findings (not repaired: protocol-level): cancel_then_done, dup_group_direct.",
+    "level_note": "Trusted: Lean kernel + 3 axioms; sha3 preimage resistance; committed-read semantics of a real peer as implemented by the simulated peer; per-group value conservation over both channels is proved for asset lists naming each group once (group_value_conserved_partial, no_gain_partial, released_in_full, refunded_in_full) and monitored by the judge on the implementation's dumps for all lists. Known findings (not repaired: protocol-level): cancel_then_done, dup_group_direct.",
     "trusted_base": ["core/bc_multiswap.go, core/multiswap/multiswap.go modelled by Foundation.MultiSwap.step (two read semantics)"],
-    "hypotheses": ["release_once_partial: the origin is cancelled only when no answered copy exists or can still be created (robot abandoned the id)"],
+    "hypotheses": ["release_once_partial: the origin is cancelled only when no answered copy exists or can still be created (robot abandoned the id)", "group_value_conserved_partial: every begin lists each group once and does not re-use the id of a released swap (the repeated-group case is the proved counterexample dup_group_direct)"],
     "not_modelled": ["RobotDone on the destination copy", "OnMultiSwapDoneEvent listener"],
     "assumptions": [],
 }
